@@ -101,6 +101,14 @@ CLAIMED = {
             "which file each predictor and the kick routine opens is observed by wrapping numpy.loadtxt.",
             "Python's float formatting trusted to equal the model's rounding (compared on >2e4 floats incl. exact ties).",
             "DESIGN §6 C10"),
+    "C09": ("Lean 4 proof (three contiguous progenitor classes in increasing order, type/mass use the same conditions; linear "
+            "interpolation through knots with 0 < mf ≤ mi stays positive, ≤ progenitor and ≥ the table minimum, by induction over the knot "
+            "list; analytic prescriptions at default parameters) + per-table kernel check (decide +kernel on the packed table, lifted by the "
+            "proved decoder lemma check_sound) + correspondence of predict/predict_type, FITPACK, Polynomial",
+            "Theorem C09_partial; quick kernel-checks the tables of the sampled + default metallicities (28), thorough all 1186. WD degree-10 "
+            "polynomials' range is sampled densely (4400 masses per row), not bounded in Lean (partial).",
+            "FITPACK/Polynomial float evaluation trusted to 1e-12 (cond-aware); WD polynomial bounds measured.",
+            "DESIGN §6 C09"),
 }
 
 NOT_YET = "check not built yet in this session (planned: see DESIGN §6); not claimed until its quick check is silent on the clean tree"
